@@ -3,7 +3,7 @@ CONSTANTS
   Refs = {1, 2}
   Pushers = {1}
   Inits <- Inits01
-  PushIn <- WireMC
+  PushIn <- WireNeg
   CheckCas = TRUE
   CheckObj = FALSE
   AtomicMode = "txn"
